@@ -179,7 +179,7 @@ type wideFail struct {
 }
 
 func (g *wideFails) add(kind string, n int, pre wpre, b wbatch, cb bool, detail string) {
-	key := fmt.Sprintf("wide-%s/%s/pre=%s/createbatch=%v", kind, b.family, pre.name, cb)
+	key := fmt.Sprintf("bigbatch-%s/%s/pre=%s/createbatch=%v", kind, b.family, pre.name, cb)
 	g.mu.Lock()
 	defer g.mu.Unlock()
 	if old, ok := g.m[key]; ok && (old.n < n || (old.n == n && old.ord <= b.ord)) {
@@ -197,15 +197,17 @@ func (g *wideFails) report(r *vlib.Run) int {
 		keys = append(keys, k)
 	}
 	sort.Strings(keys)
-	r.Set("wide_failing_groups_list", keys)
+	fps := []string{}
 	for _, k := range keys {
 		f := g.m[k]
 		fp := fmt.Sprintf("%s/n=%d", k, f.n)
 		if f.ord > 0 {
 			fp += fmt.Sprintf("/%d", f.ord)
 		}
+		fps = append(fps, fp)
 		r.Violate(fp, f.detail, f.how)
 	}
+	r.Set("wide_smallest_failing_cases", fps)
 	return len(keys)
 }
 
